@@ -189,10 +189,9 @@ CLAIMED['C10'] = dict(
          'list, given the store held nothing for a listed instance outside its before-server), '
          'C10_published_after_all_writes, C10_integrity_on_clean_store/_sound/_delete_only, '
          'C10_restart_drops_duplicates; loop order, guards and filter re-extracted from master.py\'s AST every run '
-         '(C10_source_shape). Refuted on the unchanged tree with witnesses and confirmed on the real Master: '
-         'init_schedule creates before it deletes (C10_init_crash_refuted; partial: C10_init_crash_partial), '
-         'check_placement_integrity repairs then fails its assert (C10_integrity_refuted), within_before is necessary '
-         '(C10_stale_entry_refuted). That the real handlers keep within_before, and that a restarted master '
+         '(C10_source_shape). After the fix: commits 37cf11c/d07e20b/42a0d7f: C10_init_crash_no_double (every prefix of '
+         'init_schedule\'s writes is double-free), C10_integrity_repair_then_pass; within_before is necessary '
+         '(C10_stale_entry_refuted, the remaining known finding). That the real handlers keep within_before, and that a restarted master '
          'completes on every cut, is decided by E-master: every write of every publication of every generated '
          'history is a crash point followed by a fresh Master on a copy of the store.',
     note=MASTER_NOTE,
@@ -203,10 +202,10 @@ CLAIMED['C09'] = dict(
     engine='E-master',
     text='Rocq theorems C09_publication / C09_published_equals_model (after Master.reschedule the store equals the '
          'model\'s placement node by node - server, identity, identity_count, expires - and nothing else is touched) '
-         'and C09_startup_names, for all tuple lists and stores, under the two stated hypotheses tying the store to '
+         'and C09_startup_content (after init_schedule every node of the model carries the current data), for all tuple lists and stores, under the two stated hypotheses tying the store to '
          'what the cycle read (within_before, unchanged_published), each shown necessary by a _refuted witness; '
          'publication shape re-extracted from the AST each run. Partial: preservation of the two hypotheses by the '
-         'event handlers between cycles, and content after init_schedule (C09_startup_content_refuted), are decided '
+         'event handlers between cycles, is decided '
          'by the oracle on the real Master (content of every node compared with Master.cell after every cycle and '
          'restart) and the write-list correspondence.',
     note=MASTER_NOTE + ' Every cycle preceded by a Tick of at least 1 s; identity_count is not part of the statement.',
@@ -246,6 +245,74 @@ CLAIMED['C15'] = dict(
               'computational table checks + differential correspondence (cases.v/vm_compute, 20 case kinds) + '
               'round-trip/injectivity oracle',
     ref='DESIGN.md section 7 C15')
+
+CLAIMED['C04'] = dict(
+    engine='E-cell',
+    text='Rocq theorems for all histories in which instances of one affinity declare the same limits: C04_invariant / '
+         'C04_cycle (invariant in every reachable state / kept by any cycle), C04_server_counts (the per-server '
+         'affinity counter the scheduler keeps equals the true count), C04_server_limit (no server holds more '
+         'instances of an affinity than they allow at server level). C04_levels_refuted: machine-checked witness '
+         '(vm_compute) that the code as it is exceeds a rack limit through the eviction path (known finding). Partial: '
+         'counters and limits of racks/pods/cell are decided by the per-operation correspondence (stored counters of '
+         'every bucket are in the digest) and the C04 oracle (recount from the leaves).',
+    note=SCHED_NOTE + ' Hypotheses (wf_ops_aff): those of C01 plus: a new instance declares the same limits as the '
+         'existing instances of its affinity.',
+    technique='Rocq proof (inductive invariant over primitive transitions) + refutation witness by vm_compute + '
+              'per-operation digest correspondence + oracle',
+    ref='DESIGN.md section 7 C04')
+CLAIMED['C03'] = dict(
+    engine='E-cell',
+    text='Rocq theorems on the model, for every cell state: C03_put_guard (whatever puts an instance on a server goes '
+         'through the guard of Server.put: same partition label, all traits of the instance and its allocation, now + '
+         'lease < reboot time, room in every dimension, server-level affinity head-room), C03_fresh_put_only_up / '
+         'C03_eviction_only_up (a fresh placement walk and the eviction scan leave every server that is not up exactly '
+         'as it was), C03_cycle_is_guarded_steps. C03_after_refuted: machine-checked witness that an instance '
+         're-assigned to an allocation of another partition keeps its old server (known finding). Partial: "server '
+         'after <> server before => that put was a fresh or eviction put" is decided by the correspondence (placement '
+         'tuples in every cycle digest) and the C03 oracle on (instance, before, after).',
+    note=SCHED_NOTE,
+    technique='Rocq proof (guard specification, frame lemmas over the placement walk and the eviction scan) + '
+              'refutation witness + per-operation digest correspondence + oracle',
+    ref='DESIGN.md section 7 C03')
+CLAIMED['C08'] = dict(
+    engine='E-cell',
+    text='Rocq theorems on the model, for every cell state: C08_retention_decision + C08_expired (the instances moved '
+         'off an inactive server are exactly: down server and since + timeout <= now (no timeout: at once); frozen '
+         'server and marked for unscheduling), C08_no_capacity_eviction_meanwhile / C08_nonup_receives_nothing (the '
+         'eviction scan and a fresh placement walk leave every server that is not up exactly as it was), '
+         'C08_blacklisted_skipped. C08_shrink_refuted: machine-checked witness that an identity-group shrink removes '
+         'an instance from a down server inside its retention window (known finding). Partial: the composition over '
+         'the whole cycle is decided by the correspondence (virtual clock ticks at the boundary) and the C08 oracle.',
+    note=SCHED_NOTE,
+    technique='Rocq proof (decision specification, frame lemmas) + refutation witness + per-operation digest '
+              'correspondence + oracle',
+    ref='DESIGN.md section 7 C08')
+CLAIMED['C07'] = dict(
+    engine='E-cell',
+    text='Rocq theorems on the model, for every cell state, queue and placer: C07_victims_behind (the eviction scan '
+         'changes no instance other than the placer and the instances strictly behind it), '
+         'C07_attempt_touches_nobody_else, C07_victims_on_up_servers, C07_blacklisted_inert. C07_stale_refuted: '
+         'machine-checked witness of the known finding (an instance whose placement is stale for its allocation is '
+         'evicted for an instance ahead that then fails to place, and cannot be restored). Partial: the full statement '
+         'needs the loop invariant over queue positions; it is decided by the correspondence (queue and placement '
+         'tuples in every cycle digest) and the C07 oracle on the captured queue.',
+    note=SCHED_NOTE,
+    technique='Rocq proof (frame lemmas over the eviction scan and the placement walk) + refutation witness + '
+              'per-operation digest correspondence + oracle',
+    ref='DESIGN.md section 7 C07')
+CLAIMED['C02'] = dict(
+    engine='E-cell',
+    text='C02_tracker_refuted: machine-checked witness (vm_compute) that on the code as it is a fitting trait-less probe '
+         'is skipped by the PlacementFeasibilityTracker after a pending instance of the same affinity that needs an '
+         'unavailable trait (known finding). Proved for every cell state: C02_attempt_is_local (a fresh placement '
+         'attempt changes no other instance and no server that is not up), C02_attempt_steps. Partial: completeness of '
+         'Bucket.put (aggregates never hide a fitting server; the spread cursor visits every live child) is decided by '
+         'the per-operation correspondence (stored free vectors, labels, traits, counters and cursors of every bucket '
+         'are in the digest) and the C02 oracle (cell driven quiescent, one probe, leaf scan of all servers).',
+    note=SCHED_NOTE,
+    technique='refutation witness by vm_compute + Rocq frame lemmas + per-operation digest correspondence + '
+              'quiescent-probe oracle',
+    ref='DESIGN.md section 7 C02')
 
 NOT_YET = {}
 
